@@ -12,6 +12,7 @@ import (
 	"sync"
 	"testing"
 
+	"github.com/open-telemetry/otel-arrow/pkg/otel/arrow_record"
 	carrow "github.com/open-telemetry/otel-arrow/pkg/otel/common/arrow"
 	"github.com/open-telemetry/otel-arrow/pkg/otel/common/schema/transform"
 	logsarrow "github.com/open-telemetry/otel-arrow/pkg/otel/logs/arrow"
@@ -65,6 +66,12 @@ func TestConcurrent(t *testing.T) {
 	ngroups := (len(plan) + group - 1) / group
 	for g := start; g < ngroups; g += step {
 		lo, hi := g*group, min((g+1)*group, len(plan))
+		// every second group builds all its consumers from one shared option slice
+		if g%2 == 1 {
+			SharedConsumerOptions = []arrow_record.Option{arrow_record.WithMemoryLimit(70 << 20)}
+		} else {
+			SharedConsumerOptions = nil
+		}
 		fp0 := globalsFingerprint()
 		alone := make([]*Capture, hi-lo)
 		for i := lo; i < hi; i++ {
